@@ -179,9 +179,24 @@ def r08_3(ctx):
         return f
     C, B = crc_l[0], buf_l[0]
 
+    # `for block in buf.chunks_exact(16)` (with `.remainder()` for the tail): every block is 16 consecutive bytes of the buffer
+    chunk_calls = [t for _, t in f.calls() if (f.callee(t) or '').endswith('<impl [T]>::chunks_exact')]
+    chunked = False
+    if len(chunk_calls) == 1:
+        from sym import Sym as _Sym
+        sy_ = _Sym(f)
+        bidc = next(b for b, t in f.calls() if t is chunk_calls[0])
+        cargs = sy_.call_expr(bidc)[2]
+        chunked = len(cargs) == 2 and cargs[1] == ('const', 16) and any(x == ('param', f.local_name(B), B) for x in walk(cargs[0]))
+
+    def is_block(e):
+        return chunked and e[0] == 'field' and e[2] == '0' and e[1][0] == 'variant' and e[1][2] == 'Some' and is_call(e[1][1], '::next')
+
     def head(l):
         def h(e):
             if e[0] == 'havoc' and e[1] == (l,):
+                return True
+            if l == B and is_block(e):
                 return True
             # the first 16 bytes of the remaining buffer handed to a block helper: rest.split_at(16).0, &rest[..16], &rest[0..16]
             if l == B and e[0] == 'field' and e[2] == '0' and is_call(e[1], '::split_at') and h(e[1][2][0]) and e[1][2][1] == ('const', 16):
@@ -230,11 +245,11 @@ def r08_3(ctx):
                 seen_fast = True
                 guard = [d for d in p.decisions if d[2][0] == 'bin' and d[2][1] in ('Ge', 'Lt', 'Gt', 'Le') and any(x[0] == 'call' and x[1].endswith('::len') for x in walk(d[2]))]
                 okg = any((d[2][1] == 'Ge' and d[2][3] == ('const', 16) and d[3] == 1) or (d[2][1] == 'Lt' and d[2][3] == ('const', 16) and d[3] == 0) or (d[2][1] == 'Gt' and d[2][3] == ('const', 15) and d[3] == 1) for d in guard)
-                ctx.check(R, okg, 'fast-guard', 'the 16-byte step must run only while at least 16 bytes remain', fn=f)
+                ctx.check(R, okg or chunked, 'fast-guard', 'the 16-byte step must run only while at least 16 bytes remain', fn=f)
                 hb = lambda e: e[0] == 'havoc' and e[1] == (B,)
                 okadv = (is_call(vb, 'Index<I> for [T]>::index') and hb(vb[2][0]) and vb[2][1][0] == 'agg' and vb[2][1][1].endswith('RangeFrom') and dict(vb[2][1][2]).get('start') == ('const', 16)) \
                     or (vb[0] == 'field' and vb[2] == '1' and is_call(vb[1], '::split_at') and hb(vb[1][2][0]) and vb[1][2][1] == ('const', 16))
-                ctx.check(R, okadv, 'fast-advance', 'the 16-byte step must advance the buffer by exactly 16 bytes: %s' % fmt(vb)[:100], fn=f)
+                ctx.check(R, okadv or chunked, 'fast-advance', 'the 16-byte step must advance the buffer by exactly 16 bytes: %s' % fmt(vb)[:100], fn=f)
                 lanes = {}
                 for t in t16:
                     k = t[1][2]
